@@ -41,6 +41,9 @@ OPS_POOL = [
     ["addtsec", "@", hx("tm"), hx("added")],
     ["rmtsec", "@", hx("tm"), hx("a")],
     ["parse_buf", "@", hx("single { y = s2 in { l = {z} } }\n")],
+    ["searchpath", "@", hx("/nonexistent/c16/dir")],
+    ["parse_buf", "@", hx("tm a { }\ntm b { }\ntm a { x = 5 }\n")],
+    ["findfile", "@", hx("c16_nofile.conf")],
 ]
 INST_OPS = [
     ["setint", "@", hx("tm=%s|x"), 0, hx("77")],
